@@ -14,7 +14,7 @@ RULE = ("pairs of blackbox-free lint-clean circuits (copy / self / reference-sid
         "unrelated sharing io names) x startpoint and endpoint subsets; distinct = canonical pair + subsets; "
         "non-trivial = at least one compared endpoint depends on a tied startpoint")
 PROBES = ["single_endpoint", "untied_startpoint", "pair:restructured", "pair:mutated", "pair:self", "pair:copy",
-          "pair:unrelated", "pair:cut", "differs_rarely", "equivalent", "different"]
+          "pair:unrelated", "pair:cut", "differs_rarely", "equivalent", "different", "repeated_call_same_objects"]
 ASSUMPTIONS = ["<= 5 shared + <= 2 private startpoints per side, <= 12 gates per circuit",
                "node names do not start with c0_/c1_/dif_ and are not 'sat' (default naming)"]
 
@@ -156,6 +156,7 @@ def gen(rng, tier):
         if both:
             eps = rng.sample(both, rng.randint(1, min(3, len(both))))
     return {"c0": c0, "c1": c1, "kind": kind, "startpoints": sps, "endpoints": eps,
+            "repeat": rng.random() < 0.3, "as_list": rng.random() < 0.3,
             "peer": {"seed": rng.getrandbits(32), "policy": rng.choice(("inputs_first", "random", "inputs_last",
                                                                         "prefer_true", "prefer_false"))}}
 
@@ -194,11 +195,17 @@ def run(case, ctx):
     if (sp0 - S) or (sp1 - S):
         ctx.probe("untied_startpoint")
     kw = {}
+    box = list if case.get("as_list") else set
     if case["startpoints"]:
-        kw["startpoints"] = set(case["startpoints"])
+        kw["startpoints"] = box(case["startpoints"])
     if case["endpoints"]:
-        kw["endpoints"] = set(case["endpoints"])
+        kw["endpoints"] = box(case["endpoints"])
     b0, b1 = ref.snapshot(c0), (ref.snapshot(c1) if c1 is not None else None)
+    if case.get("repeat"):
+        # a caller comparing in a loop passes the same startpoints / endpoints objects to every call;
+        # the miter examined below is the one from the second call
+        ctx.probe("repeated_call_same_objects")
+        ctx.call("C04.raises", sig, cg.tx.miter, c0, c1, **kw)
     m = ctx.call("C04.raises", sig, cg.tx.miter, c0, c1, **kw)
     ms = ref.snapshot(m)
     ctx.log("miter", state_digest(m))
@@ -268,6 +275,10 @@ def shrink(case):
             if len(v) > 1:
                 for x in v:
                     yield dict(case, **{key: [y for y in v if y != x]})
+    if case.get("repeat"):
+        yield dict(case, repeat=False)
+    if case.get("as_list"):
+        yield dict(case, as_list=False)
     if case["peer"].get("policy") != "inputs_first":
         yield dict(case, peer=dict(case["peer"], policy="inputs_first"))
 
